@@ -67,8 +67,12 @@ func c01Want(active []string, topic string) []string {
 	return want
 }
 
-func c01Set(t subscriptions.Tree, f string)   { t.Upsert([]byte(f), func([]byte) []byte { return []byte(f) }) }
-func c01Unset(t subscriptions.Tree, f string) { t.Upsert([]byte(f), func([]byte) []byte { return nil }) }
+func c01Set(t subscriptions.Tree, f string) {
+	t.Upsert([]byte(f), func([]byte) []byte { return []byte(f) })
+}
+func c01Unset(t subscriptions.Tree, f string) {
+	t.Upsert([]byte(f), func([]byte) []byte { return nil })
+}
 
 func c01Class(f, topic string, got, want []string) string {
 	has := func(l []string, x string) bool {
